@@ -66,4 +66,8 @@ def modelRun (cap : Option Nat) (hh : Bool) (ops : List HOp) : List HObs :=
   go (settleAll (init cap hh)) 0 ops []
 
 
+/-- the model state after a history (the schedule of `modelRun`) -/
+def modelFinal (cap : Option Nat) (hh : Bool) (ops : List HOp) : St M :=
+  (ops.foldl (fun (p : St M × Nat) op => let r := modelOp p.1 p.2 op; (r.1, r.2.1)) (settleAll (init cap hh), 0)).1
+
 end Queue
